@@ -1,6 +1,6 @@
 SPECIFICATION TraceSpec
 CONSTANTS
-  KnownDanglingBalance = TRUE
-  KnownV6OldBranch = TRUE
+  KnownDanglingBalance = FALSE
+  KnownV6OldBranch = FALSE
 POSTCONDITION Accepted
 CHECK_DEADLOCK FALSE
